@@ -1,8 +1,9 @@
 """C07 — subsetting preserves the behaviour of everything it keeps.
 
-(M) MC_Subset: the subsetter pipeline of specs/Subset.tla (prune, request, cmap closure, GSUB closure
-    loop, component closure, renumbering, table subsetting, lookup pruning) is model-checked over a
-    family of small abstract fonts x every request x options: RequestedPresent, ClosureSufficient
+(M) MC_Subset (three configurations: lookup-kind slice, option slice, second-pass slice): the subsetter
+    pipeline of specs/Subset.tla (prune, request, cmap closure, GSUB closure loop, component closure,
+    renumbering, table subsetting, lookup pruning) is model-checked over a family of small abstract
+    fonts x every request x options: RequestedPresent, ClosureSufficient
     (and, for that family, exactness), Monotone, NoDangling, RetainGids, ShapingPreserved (OTLSem
     shaping of every text up to length 3 over the retained characters), LfpIsLeast.  The same runs
     emit the (font, request, options) cases (GEN).
@@ -11,12 +12,19 @@
     (FontBuilder + otTables), projected back (must equal the abstract font), pushed through the
     real Subsetter; the run is recorded and judged like (V), and in addition TLC shapes every text
     up to length 2 with OTLSem on the projections of the original and of the result.
-(V) every corpus font x seeded requests x a pairwise covering of the options: the projected ORIGINAL
-    font, the request/options, the staged glyph sets read from the Subsetter object, the glyph
-    order / index map, the glyph ids every table of the saved RESULT mentions, HarfBuzz shaping of
+(V) every corpus font (all binaries; of the whole-font TTX the subsetter's own test inputs, every variable
+    font and the CID-keyed masters, compiled by the library) x seeded requests (two aimed at the
+    renumbering of per-glyph records and classes of one of the font's own subtables, half of the
+    characters, then single character / glyph names / glyph ids / text / all-but-one / mixed / few / all in
+    rotation) x a pairwise covering of the options: the projected ORIGINAL font, the request/options,
+    the staged glyph sets read from the Subsetter object, the glyph order / index map, the glyph ids
+    every table of the saved RESULT mentions, the cmap before and after saving, HarfBuzz shaping of
     probe texts (derived from the original font's rules) on both fonts, and outline / metric /
-    variation observations of kept glyphs go to Trace_C07, where TLC decides every clause.
-Python only drives and records; it takes no accept/reject decision."""
+    variation / GDEF class / CFF width observations of kept glyphs go to Trace_C07, where TLC decides
+    every clause (including which requests and which shaping observations are inside the domain).
+Python only drives and records; it takes no accept/reject decision.
+Environment variables VERIF_C07_* / VERIF_TLC_WORKERS are development aids (smaller samples, cached (M) output,
+dumps); a normal run sets none of them."""
 import io
 import itertools
 import logging
